@@ -468,6 +468,47 @@ def c15(tier, seed):
 def c14(tier, seed):
     return fault_jobs(tier, "C14")
 
+
+SCHED_WRAPS = ["pthread_mutex_trylock", "pthread_mutex_unlock", "usleep"]
+C13_CONTAINERS = ["qvector", "qlist", "qqueue", "qstack", "qtreetbl", "qhashtbl", "qlisttbl", "qlisttbl-unique"]
+
+
+def c13_jobs(tier):
+    H = ["sched/c13.c", "sched/sched.c"]
+    X = tier == "thorough"
+    jobs = []
+    def add(cont, shape, pb, flavour, shards, w):
+        for i in range(shards):
+            jobs.append(Job("%s-%s-s%d-pb%d-%d" % (flavour, cont, shape, pb, i), H, [cont, shape, pb, i, shards], flavour=flavour,
+                            wraps=SCHED_WRAPS, nosan=["sched/sched.c"], weight=w))
+    for cont in C13_CONTAINERS:
+        add(cont, 11, 3 if X else 2, "asan", 1, 1)
+        add(cont, 21, 2, "asan", 2, 6)
+        add(cont, 11, 2, "tsan", 1, 2)
+        add(cont, 21, 2, "tsan", 3, 10)
+        if X:
+            add(cont, 22, 2, "asan", 8, 40)
+            add(cont, 111, 2, "asan", 4, 20)
+    return jobs
+
+
+@prop("C13", "model_checking",
+      "for each thread-safe container (vector, list, queue, stack, tree table, hash table with one shared chain, list table "
+      "plain and UNIQUE): every 2-thread client program with <= 2 operations in one thread and 1 in the other over an "
+      "alphabet of 6-12 operations on shared keys/positions (insert/put new and existing, copying get, remove/pop, clear, "
+      "toarray/tostring, lock;walk;unlock) from 2 initial states (thorough: <= 2 operations per thread and all 3-thread "
+      "1-operation programs); for every program every schedule with <= 2 preemptions (thorough 3 for 1-op programs) at the "
+      "granularity of the library's lock operations, real pthreads serialised by a futex hand-off scheduler. Every execution: "
+      "brute-force linearizability against sequential runs of the same code (results of every call + final contents, "
+      "real-time order respected), deadlock/livelock, lock left held; the same programs and schedules on a TSan build whose "
+      "scheduler is invisible to the sanitizer: any data race report is a violation",
+      ["unlocked code between two scheduling points runs atomically in the search; unlocked accesses are caught by the TSan pass instead",
+       "the 5000-spin forced-unlock branch of Q_MUTEX_ENTER depends on real time and is not explored"],
+      [need("programs", 1000), need("transitions", 10000), need("programs_with_several_outcomes", 10), forbid("replay_divergence")],
+      classes=["conc:*", "asan:*"])
+def c13(tier, seed):
+    return c13_jobs(tier)
+
 NOT_YET = {}
 ENGINES = [
     {"name": "seqmc", "path": "engines/seqmc", "serves_properties": ["C01", "C02", "C03", "C04", "C05", "C08", "C09", "C10", "C11", "C12"],
@@ -476,6 +517,8 @@ ENGINES = [
      "kind_free_text": "explicit-state BFS over qhasharr memory images restored by memcpy at a different address before every transition"},
     {"name": "faultenum", "path": "engines/faultenum", "serves_properties": ["C14", "C15"],
      "kind_free_text": "exhaustive enumeration of (state, operation, entry lock depth, allocation-fault plan) with a differential oracle against fault-free runs and pthread-level lock-depth tracking"},
+    {"name": "sched", "path": "engines/sched", "serves_properties": ["C13"],
+     "kind_free_text": "stateless DFS over thread schedules with a preemption bound; real pthreads serialised by a raw-futex hand-off scheduler injected at the library's lock operations via --wrap; brute-force linearizability checker; TSan pass under the same scheduler"},
     {"name": "inputmc", "path": "engines/inputmc", "serves_properties": ["C16", "C17", "C18", "C19", "C20"],
      "kind_free_text": "bounded-exhaustive input enumeration against independent references, ASan/UBSan as oracle"},
 ]
